@@ -387,14 +387,14 @@ theorem lg_phase2 {resv remv : List Handle} :
 transaction log is removed by the cleanup's last call, the priority log (written only when there is something to
 flip) right after the flip. No premise on the state or the write set other than that the transaction had no
 priority log to begin with. -/
-theorem commit_ok_no_logs {s0 : State} {fresh0 : List (UUID × UUID)} (tid : Tid) (n : Nat) (r2 : Run)
+theorem commit_ok_no_logs {s0 : State} {fresh0 : List (UUID × UUID)} {cs0 : Step} (tid : Tid) (n : Nat) (r2 : Run)
     (hp0 : s0.plog tid = false)
-    (hok : commit w n { s := s0, tid := tid, fault := none, fresh := fresh0 } = (.ok, r2)) :
+    (hok : commit w n { s := s0, tid := tid, fault := none, fresh := fresh0, cs := cs0 } = (.ok, r2)) :
     r2.s.tlog tid = false ∧ r2.s.plog tid = false := by
-  have h1 := pe_phase1 (w := w) (t := tid) n { s := s0, tid := tid, fault := none, fresh := fresh0 } ⟨rfl, hp0⟩
-  have hf1 := h_phase1 (f0 := none) w n { s := s0, tid := tid, fault := none, fresh := fresh0 } ⟨rfl, rfl, rfl⟩
+  have h1 := pe_phase1 (w := w) (t := tid) n { s := s0, tid := tid, fault := none, fresh := fresh0, cs := cs0 } ⟨rfl, hp0⟩
+  have hf1 := h_phase1 (f0 := none) w n { s := s0, tid := tid, fault := none, fresh := fresh0, cs := cs0 } ⟨rfl, rfl, rfl⟩
   unfold commit at hok
-  cases hp : phase1 w n { s := s0, tid := tid, fault := none, fresh := fresh0 } with
+  cases hp : phase1 w n { s := s0, tid := tid, fault := none, fresh := fresh0, cs := cs0 } with
   | error r1 =>
     rw [hp] at hok
     simp only at hok
